@@ -27,11 +27,32 @@ Decl(lim, st, h) ==
                              mn |-> Min({h[j].v : j \in I}), mx |-> Max({h[j].v : j \in I})])
   IN {cell(key) : key \in {keyOf(j) : j \in 1..N}}
 
+(* views, declaratively (per configuration, independent of Table/Feeds order):  *)
+(* an instrument feeds exactly one aggregator per DISTINCT identity among the    *)
+(* streams of its matching views (the default stream when none matches), and    *)
+(* nothing else; aggregator identities are pairwise distinct; an instrument     *)
+(* selected by no view is untouched by every view                               *)
+Matching(cf, i) == {x \in 1..Len(cf.views) : Match(cf.views[x], i)}
+Wanted(cf, i) == IF Matching(cf, i) = {} THEN {Id(DefaultStream(i))}
+                 ELSE {Id(StreamOf(cf.views[x], i)) : x \in Matching(cf, i)}
+ViewsDecl(k) ==
+  LET cf == Configs[k]
+      tab == Tabs[k]
+  IN /\ \A x, y \in 1..Len(tab) : Id(tab[x]) = Id(tab[y]) => x = y
+     /\ \A j \in 1..Len(cf.insts) :
+          /\ {Id(tab[t]) : t \in FMaps[k][j]} = Wanted(cf, cf.insts[j])
+          /\ Cardinality(FMaps[k][j]) = Cardinality(Wanted(cf, cf.insts[j]))
+          /\ (Matching(cf, cf.insts[j]) = {} =>
+                \A t \in FMaps[k][j] : tab[t].agg = DefaultAgg(cf.insts[j].kind) /\ ~tab[t].filt.on
+                                        /\ tab[t].unit = cf.insts[j].unit /\ tab[t].desc = cf.insts[j].desc)
+     /\ \A t \in 1..Len(tab) : \E j \in 1..Len(cf.insts) : t \in FMaps[k][j]
+ASSUME \A k \in 1..Len(Configs) : ViewsDecl(k)
+
 HInit == Init /\ hist = <<>> /\ phist = <<>>
 HNext == /\ Next
          /\ CASE act'.op = "S" -> (hist' = [t \in 1..Len(ss') |-> <<>>] /\ phist' = hist')
               [] act'.op = "M" -> (/\ hist' = [t \in 1..Len(Tab) |->
-                                                IF t \in Feeds(Cfg, Tab, act'.i)
+                                                IF t \in FMaps[c][act'.i]
                                                 THEN Append(hist[t], [attrs |-> act'.attrs, v |-> act'.v]) ELSE hist[t]]
                                    /\ UNCHANGED phist)
               [] act'.op = "C" -> (/\ hist' = [t \in 1..Len(Tab) |->
@@ -57,7 +78,7 @@ PrevDecl(t, x) == LET P == Decl(L, Tab[t], phist[t]) IN
                   IF \E p \in P : SameKey(p, x) THEN (CHOOSE p \in P : SameKey(p, x)).s ELSE 0
 ReportDecl == c # 0 => \A t \in Live :
    LET m == Mode(Tab[t].agg, Tab[t].kind)
-       M == {mm \in Report(Cfg, Tab, ss) : mm.name = Tab[t].name /\ mm.num = Tab[t].num}
+       M == {mm \in Report(Cfg, Tab, ss) : MKey(mm) = RKey(Tab[t])}
    IN IF hist[t] = <<>> THEN M = {}
       ELSE /\ Cardinality(M) = 1
            /\ LET mm == CHOOSE mm \in M : TRUE IN
@@ -71,10 +92,12 @@ ReportDecl == c # 0 => \A t \in Live :
 (* conservation as seen by the reader: cumulative pre-computed and all          *)
 (* synchronous streams report exactly the total of what they were fed           *)
 ReportedTotal == c # 0 => \A mm \in Report(Cfg, Tab, ss) :
-   \A t \in Live : (Tab[t].name = mm.name /\ Tab[t].num = mm.num) =>
+   \A t \in Live : RKey(Tab[t]) = MKey(mm) =>
       LET m == Mode(Tab[t].agg, Tab[t].kind) IN
       /\ (m = "hist" => MapThenSumSet(LAMBDA p : p.n, mm.pts) = Len(hist[t]))
       /\ ((m = "sum" \/ (m = "psum" /\ Cfg.temp = "cumulative") \/ (m = "hist" /\ HasSum(Tab[t].kind))) =>
             MapThenSumSet(LAMBDA p : p.s, mm.pts) = MapThenSumSet(LAMBDA j : hist[t][j].v, 1..Len(hist[t])))
-HInv == Inv /\ DeclEq /\ Conserved /\ ReportDecl /\ ReportedTotal
+(* every reported metric belongs to exactly one stream *)
+ReportOwned == c # 0 => \A mm \in Report(Cfg, Tab, ss) : Cardinality({t \in Live : RKey(Tab[t]) = MKey(mm)}) = 1
+HInv == Inv /\ DeclEq /\ ReportOwned /\ Conserved /\ ReportDecl /\ ReportedTotal
 =============================================================================
